@@ -1719,6 +1719,7 @@ async def c03_definition_order(w):
 
 
 PROGRAMS_C03 = [
+    ("comprehension-in-class-body-sees-class-variables", "b = 'B'\nc = 'C'\nclass K:\n    c = b\n    p = {c for x in [1]}\n    q = [c for x in [1]]\nr = [K.p, K.q]\n"),
     # (the next three were added after round-2 seeds C03-3 / C03-4 had shown the gap: not written blind)
     ("duplicate-keyword-after-mapping", "def f(a=0, **kw):\n    return (a, kw)\nd = {'a': 1}\ntry:\n    r = f(**d, a=2)\nexcept TypeError:\n    r = 'TypeError'\nr2 = f(**{'b': 1}, a=2)\n"),
     ("same-name-in-two-enclosing-functions-class-between", "def outer():\n    x = 'outer'\n    def middle():\n        x = 'middle'\n        class C:\n            def m(self):\n                return x\n        return C().m()\n    return [middle(), x]\nr = outer()\n"),
@@ -3882,7 +3883,7 @@ async def c01_random_bounded(w):
     rng = random.Random(7000 + int(w.get("seed", 0)))
     n = int(w.get("programs", 300))
     mode_stmt = w.get("what", "both")
-    failures, cases, seen = [], 0, set()
+    failures, cases, seen, skipped = [], 0, set(), []
     for i in range(n):
         g = _Gen(rng)
         if mode_stmt == "func":
@@ -3899,9 +3900,11 @@ async def c01_random_bounded(w):
         if rng.random() < 0.5:
             script["fail_at"] = rng.randrange(0, 12)
         try:
-            cp, ps = await asyncio.wait_for(_run_both(src, mode, script, ["a", "b", "c"], {"s": True}), 20)
+            cp, ps = await asyncio.wait_for(_run_both(src, mode, script, ["a", "b", "c"], {"s": True}), 60)
         except Exception as e:  # noqa
-            cp, ps = {"harness": "error"}, {"harness": repr(e)}
+            # a program that could not be run to the end (time-out on a loaded machine, harness error) decides nothing
+            skipped.append(repr(e)[:80])
+            continue
         cases += 1
         if cp != ps:
             diff = [k for k in cp if cp.get(k) != ps.get(k)]
@@ -3911,7 +3914,7 @@ async def c01_random_bounded(w):
                                  "differs_in": diff, "cpython": {k: cp.get(k) for k in diff}, "pyscript": {k: ps.get(k) for k in diff}})
     await shutdown()
     return {"unit": "AstEval on random programs", "method": "real interpreter vs CPython on tracer values", "bound": f"{n} random programs (expression depth <= 3, statement depth <= 2), seeded",
-            "cases": cases, "failures": failures, "reproduced": bool(failures)}
+            "cases": cases, "skipped": len(skipped), "skipped_why": skipped[:3], "failures": failures, "reproduced": bool(failures)}
 
 
 # ---------------------------------------------------------------------------------------------------------
